@@ -210,6 +210,13 @@ func c10pausegate(cs *h.Case, script string) string {
 	for _, ch := range released {
 		close(ch)
 	}
+	for _, o := range out {
+		if o == "lost" || o == "not-held" || o == "send-error" {
+			// a step of the script did not settle within its patience (a swamped machine): what follows says nothing
+			// about the gate's semantics; the case is not compared with the model, Stop's return is still judged
+			cs.NoModel, cs.Trivial = true, true
+		}
+	}
 	done := make(chan bool)
 	go func() { R.Stop(); close(done) }()
 	select {
